@@ -841,3 +841,47 @@ def replay_testvectors(elab, tv_text, tb_text, case_merge=False, opts=None):
     res["clock_init"] = {c: tb["init"].get(c, "U") for c in tb["clocks"]}
     res["port_regs"] = list(it.port_regs)
     return res
+
+
+# ---- time base of the recorded test vectors ---------------------------------------------------------
+def check_timebase(tbtrace_text, tv_text):
+    """The exporter's recorder writes whole-picosecond ADV records.  harness/C02_export.cpp logged, for every SET/CHECK round of
+    its simulation process, the exact simulator time `t` of the round and the time `next` of the next simulator event; the
+    recorder places the round's records inside (t, next).  So the accumulated ADV time of the k-th CHECK group must lie in
+    [t_k - 1 ps, next_k]: otherwise the stimulus process of the exported test bench drifts against the test bench's own clock
+    process (which runs from the half-period constant, not from the vector file).
+    -> dict(groups=n, worst_early_ps=.., worst_late_ps=.., first_bad=None | dict(...))"""
+    from fractions import Fraction
+    rounds = []
+    for line in tbtrace_text.splitlines():
+        p = line.split()
+        if len(p) > 4 and p[0] == "cy" and p[2].startswith("t=") and p[3].startswith("next="):
+            outs = p[p.index("out") + 1:]
+            recordable = sum(1 for o in outs if any(ch in "01" for ch in o))
+            rounds.append((int(p[1]), Fraction(p[2][2:]) / 1000, Fraction(p[3][5:]) / 1000, recordable))     # ps
+    groups, t, lines, i, in_group = [], 0, tv_text.split("\n"), 0, False
+    while i < len(lines):
+        l = lines[i].strip()
+        if l == "ADV":
+            t += int(lines[i + 1]); i += 2; in_group = False
+        elif l == "CHECK":
+            if not in_group:
+                groups.append(t); in_group = True
+            i += 3
+        elif l in ("SET", "RST"):
+            i += 3
+        else:
+            i += 1
+    want = [r for r in rounds if r[3] > 0]
+    res = dict(groups=len(groups), rounds=len(want), worst_early_ps=0.0, worst_late_ps=0.0, first_bad=None)
+    if len(groups) != len(want):
+        res["first_bad"] = dict(kind="number of CHECK groups differs from the number of rounds that read a defined value", groups=len(groups), rounds=len(want))
+        return res
+    for tau, (cyc, t0, t1, _) in zip(groups, want):
+        early, late = float(t0 - tau), float(tau - t1)
+        res["worst_early_ps"] = max(res["worst_early_ps"], early)
+        res["worst_late_ps"] = max(res["worst_late_ps"], late)
+        if (early > 1 or late > 0) and res["first_bad"] is None:
+            res["first_bad"] = dict(kind="accumulated ADV time of a CHECK group lies outside [t - 1 ps, next event]", round=cyc,
+                                    simulator_time_ps=float(t0), next_event_ps=float(t1), adv_sum_ps=tau)
+    return res
